@@ -27,7 +27,7 @@ SAll == {"full", "auto", "randomized"}
 CZero == {0}
 CAll == {-8, 0, 8}
 RelNone == {"none"}
-RelC08 == {"none", "shift", "rescale", "scale", "negscale", "premult", "coslat_as_weights"}
+RelC08 == {"none", "shift", "rescale", "scale", "negscale", "premult", "coslat_as_weights", "weights_by_label"}
 RelC10 == {"id_mca_self", "id_complex_of_real", "id_eeof_single_embedding", "id_sparse_no_penalty"}
 RelC07 == {"permute_features", "permute_samples", "transpose"}
 
